@@ -6,7 +6,7 @@
    Also recorded: the bodies of net/conn.go ReadPacket / WritePacket / SetThreshold / SetCipher and the
    composite literals of type Conn, as rendered text. *)
 From Coq Require Import List String ZArith.
-From GoMC Require Import Model.C07_syntax.
+From GoMC Require Import Model.C07_syntax Model.C07_connsyntax.
 Import ListNotations.
 Local Open Scope string_scope.
 
@@ -71,3 +71,20 @@ Definition expected_conn_SetCipher : list string :=
 Definition expected_conn_literals : list string :=
   ["Socket:conn,Reader:conn,Writer:conn,threshold:-1";
    "Socket:conn,Reader:conn,Writer:conn,threshold:-1"].
+
+(* net/conn.go, structured (Model/C07_connsyntax.v): ReadPacket hands c.Reader and the CURRENT c.threshold to
+   UnPack, WritePacket hands c.Writer and the current c.threshold to Pack, SetThreshold assigns the field,
+   SetCipher replaces BOTH directions by a cipher.StreamReader / cipher.StreamWriter placed directly around
+   the raw socket c.Socket (not around the previous c.Reader / c.Writer: a second SetCipher does not stack),
+   with decoStream on the reading side and ecoStream on the writing side; a fresh Conn reads and writes the
+   socket itself with threshold -1 *)
+Definition expected_cs_ReadPacket : list cstmt := [CReturnUnPack (CVField CFReader) (CVField CFThreshold)].
+Definition expected_cs_WritePacket : list cstmt := [CReturnPack (CVField CFWriter) (CVField CFThreshold)].
+Definition expected_cs_SetThreshold : list cstmt := [CAssign CFThreshold (CVParam "t")].
+Definition expected_cs_SetCipher : list cstmt :=
+  [CAssign CFReader (CVStreamReader (CVParam "decoStream") (CVField CFSocket));
+   CAssign CFWriter (CVStreamWriter (CVParam "ecoStream") (CVField CFSocket))].
+Definition expected_cs_fields : list string := ["Socket net.Conn"; "io.Reader"; "io.Writer"; "threshold int"].
+Definition expected_cs_literal : list (cfield * cval) :=
+  [(CFSocket, CVParam "conn"); (CFReader, CVParam "conn"); (CFWriter, CVParam "conn"); (CFThreshold, CVInt (-1)%Z)].
+Definition expected_cs_literals : list (list (cfield * cval)) := [expected_cs_literal; expected_cs_literal].
